@@ -9,7 +9,7 @@ RULE = (
     "case = (generated tree or single file: depth <= 4, fan-out <= 4, odd names, duplicate / empty / CRLF / around-1MiB contents, "
     "empty directories; store class local/base; link type default(reflink->copy)/copy/hardlink/symlink; state on/off; route: "
     "object-level checkout, index compare/apply with explicit file entries, index compare/apply with the directory as one "
-    "unloaded entry at the top or at a nested key).  Bytes and paths of the checked-out location are compared with the "
+    "unloaded entry at the top or at a nested key; optionally: directory named with a trailing separator, writable debris under final object names in a local store before the transfer, another location with shared contents staged for the same store and rewritten/removed between staging and transfer).  Bytes and paths of the checked-out location are compared with the "
     "generator's record; the reloaded directory object with an independently assembled listing.  non-trivial = >= 2 files or a "
     "nested path; distinct = (tree content, configuration)"
 )
@@ -19,7 +19,7 @@ ASSUMPTIONS = [
     "empty directories are not tracked (as the statement says) and are not expected back",
 ]
 MONITORS = "independent walk of the fresh location; reloaded Tree listing vs independent listing; reported nfiles/size vs data"
-REQUIRED_COUNTERS = ["second_generation_roundtrips", "dirs_with_several_large_files", "restaged_after_checkout", "roundtrips", "files_compared", "route/object", "route/index-explicit", "route/index-lazy", "single_file_cases",
+REQUIRED_COUNTERS = ["staged_through_trailing_separator", "debris_objects_planted", "interleaved_stagings", "second_generation_roundtrips", "dirs_with_several_large_files", "restaged_after_checkout", "roundtrips", "files_compared", "route/object", "route/index-explicit", "route/index-lazy", "single_file_cases",
                      "store/local", "store/base", "link/hardlink", "link/symlink", "link/copy", "link/default", "with_state", "listing_reloads"]
 
 
@@ -91,7 +91,43 @@ def run_shard(ctx):
                 res.nontrivial(sorted(listing.items()), cls, link, use_state, route)
             res.sample(cfgd)
 
-            _st, meta, obj, r = env.stage_and_transfer(odb, spath)
+            from dvc_data.hashfile.transfer import transfer as _transfer
+
+            if not single and rng.random() < 0.15:
+                # the directory is named with a trailing separator (shell completion, os.path.join(d, ""))
+                spath = spath + os.sep
+                cfgd["trailing_separator"] = True
+                res.count("staged_through_trailing_separator")
+            if cls == "local" and rng.random() < 0.15:
+                # debris of an interrupted earlier attempt: still-writable, invalid files under final object names
+                victims = [v for v in files.values() if len(v) > 0]
+                rng.shuffle(victims)
+                for v in victims[: rng.randrange(1, 3)]:
+                    dp = odb.oid_to_path(H("md5", v))
+                    os.makedirs(os.path.dirname(dp), exist_ok=True)
+                    with open(dp, "wb") as f:
+                        f.write(b"" if rng.random() < 0.5 else v[: len(v) // 2])
+                    os.chmod(dp, 0o644)
+                    res.count("debris_objects_planted")
+                cfgd["debris"] = True
+            _st, meta, obj = env.stage(odb, spath)
+            if rng.random() < 0.2:
+                # between staging and transfer, another location sharing contents is staged for the same store and then changes
+                other = os.path.join(d, "other")
+                shared = rng.sample(sorted(files), min(len(files), rng.randrange(1, 4)))
+                ofiles = {(f"o{i}",): files[k] for i, k in enumerate(shared)}
+                gen.write_tree(other, ofiles, set())
+                env.stage(odb, other if rng.random() < 0.7 else os.path.join(other, "o0"))
+                for k in ofiles:
+                    op_ = os.path.join(other, *k)
+                    if rng.random() < 0.5:
+                        os.unlink(op_)
+                    else:
+                        with open(op_, "wb") as f:
+                            f.write(b"rewritten " + gen.small_content(rng))
+                res.count("interleaved_stagings")
+                cfgd["interleaved_staging"] = True
+            r = _transfer(_st, odb, {obj.hash_info}, shallow=False, hardlink=False)
             if r.failed:
                 res.violation("transfer-of-staged-objects-failed", f"{len(r.failed)} objects failed", case=case, detail=cfgd)
                 return
